@@ -232,7 +232,7 @@ def _cap_stage(ctx, pid, thorough, rng, exe):
             e = ev[k] if k < len(ev) else {}
             what = "normal-mode execution %s (capacity notices under pending messages) is not a behaviour of the specification: event %d %s refused%s" % (
                 s.sid, k, json.dumps({x: e[x] for x in e if x not in ("st", "cfg")})[:500], (" / invariant %s violated" % r.violation) if r.violation else "")
-            ctx.violation(what, {"kind": "trace", "module": "Trace_Track.tla", "cfg": "Trace_Track.cfg", "script": s.s.text(), "config": s.cfg,
+            ctx.violation(what, {"kind": "trace", "module": "Trace_Track.tla", "cfg": "Trace_Track.cfg", "script": s.s.text(), "config": s.cfg, "regen": s.meta(),
                                  "events": ev, "refused_at": k})
         ctx.cov["capacity_sessions"] = len(items)
     finally: shutil.rmtree(tmp, ignore_errors=True)
@@ -358,7 +358,7 @@ def run(pid, tier):
         what = "execution %s is not a behaviour of the specification: event %d %s refused%s" % (
             s.sid, k, json.dumps(ev[k])[:300] if k < len(ev) else "(end)", (" / invariant %s violated" % r.violation) if r.violation else "")
         state = check.explain("Trace_Downlink.tla", "Trace_Downlink.cfg", ev, k)
-        ctx.violation(what, {"kind": "trace", "module": "Trace_Downlink.tla", "cfg": "Trace_Downlink.cfg", "script": s.text(), "events": ev,
+        ctx.violation(what, {"kind": "trace", "module": "Trace_Downlink.tla", "cfg": "Trace_Downlink.cfg", "script": s.text(), "events": ev, "regen": {"kind": "script_templates", "templates": s.events},
                              "refused_at": k, "spec_state_before": state})
     if pid == "C01":
         _cap_stage(ctx, pid, thorough, rng, exe)
